@@ -304,6 +304,7 @@ func (sp *Specs) loadContractFile(path, pkg string, assumed bool) error {
 				}
 				k := parts[1]
 				switch parts[0] {
+				case "functype":
 				case "field":
 					if strings.Count(k, ".") == 1 && curPkg != "" {
 						k = curPkg + "." + k
